@@ -214,28 +214,58 @@ theorem setOpt_wrongtype (s : MState) (now : Int) (k : Bytes) (v : DsStr.S) (kee
   rw [asStr_hot_other h1 ht]
   exact ⟨rfl, h2⟩
 
+theorem writeKey_none_flag (s : MState) (now : Int) (k : Bytes) :
+    (writeKey s now k none).2 = (live s now k).isSome := by
+  cases hl : live s now k with
+  | none => rw [(writeKey_absent s now k none hl).1 rfl]; rfl
+  | some v => rw [(writeKey_live s now k none v hl).1]; rfl
+
+/-- GETSET: the old string (nil when the key was missing), the new value stored, no deadline -/
 theorem getSet_ok (s : MState) (now : Int) (k v : Bytes)
     (hs : ∀ v0, live s now k = some v0 → isStrVal v0 = true) :
-    (Api.getSet s now k v).2 = .bytes (strOf (strAt s now k)) ∧ Hot (Api.getSet s now k v).1 k (.str v) now ∧
+    (Api.getSet s now k v).2 = .bytes ((live s now k).bind strOf) ∧ Hot (Api.getSet s now k v).1 k (.str v) now ∧
     HotExp (Api.getSet s now k v).1 k 0 := by
-  obtain ⟨h1, h2, h3⟩ := open_str_ok s now k hs
-  unfold Api.getSet
-  generalize writeKey s now k (some (.str [])) = w at *
-  obtain ⟨s1, b⟩ := w
-  simp only at h1 h3 ⊢
-  rw [asStr_hot_str h1 h2]
-  exact ⟨rfl, hot_emit (hot_signal (hot_setExp (hot_setVal h1 _) 0 (Or.inl rfl))) _,
-    hotExp_emit (hotExp_signal (hotExp_setExp (hotExp_setVal h3 _) 0)) _⟩
+  have hf := writeKey_none_flag s now k
+  cases hl : live s now k with
+  | none =>
+    rw [hl] at hf
+    unfold Api.getSet
+    generalize writeKey s now k none = w at *
+    obtain ⟨s1, b⟩ := w
+    simp only [Option.isSome_none] at hf
+    subst hf
+    simp only [Bool.not_false, if_true]
+    obtain ⟨m, hm, hok, he, hv⟩ := newKeyWith_hot s1 k none (.str [])
+    have h1 : Hot (newKeyWith s1 k none (.str [])) k (.str []) now := ⟨m, hm, hok, expired_of_exp_zero m now he, hv⟩
+    have h3 : HotExp (newKeyWith s1 k none (.str [])) k 0 := ⟨m, hm, he⟩
+    exact ⟨rfl, hot_emit (hot_signal (hot_setExp (hot_setVal h1 _) 0 (Or.inl rfl))) _,
+      hotExp_emit (hotExp_signal (hotExp_setExp (hotExp_setVal h3 _) 0)) _⟩
+  | some v0 =>
+    obtain ⟨hf', h1, _⟩ := writeKey_live s now k none v0 hl
+    have h2 := hs v0 hl
+    unfold Api.getSet
+    generalize writeKey s now k none = w at *
+    obtain ⟨s1, b⟩ := w
+    simp only at hf' h1
+    subst hf'
+    simp only [Bool.not_true, Bool.false_eq_true, if_false]
+    rw [asStr_hot_str h1 h2]
+    obtain ⟨m, hm, _⟩ := h1
+    have h3 : HotExp s1 k m.exp := ⟨m, hm, rfl⟩
+    exact ⟨rfl, hot_emit (hot_signal (hot_setExp (hot_setVal ⟨m, hm, ‹_›⟩ _) 0 (Or.inl rfl))) _,
+      hotExp_emit (hotExp_signal (hotExp_setExp (hotExp_setVal h3 _) 0)) _⟩
 
 theorem getSet_wrongtype (s : MState) (now : Int) (k v : Bytes) (v0 : Val)
     (hl : live s now k = some v0) (ht : isStrVal v0 = false) :
     (Api.getSet s now k v).2 = .panic ∧
     (∀ k', lookup (Api.getSet s now k v).1 now k' = lookup s now k') := by
-  obtain ⟨h1, h2⟩ := (open_str s now k).1 v0 hl
+  obtain ⟨hf, h1, h2⟩ := writeKey_live s now k none v0 hl
   unfold Api.getSet
-  generalize writeKey s now k (some (.str [])) = w at *
+  generalize writeKey s now k none = w at *
   obtain ⟨s1, b⟩ := w
-  simp only at h1 h2 ⊢
+  simp only at hf h1 h2
+  subst hf
+  simp only [Bool.not_true, Bool.false_eq_true, if_false]
   rw [asStr_hot_other h1 ht]
   exact ⟨rfl, h2⟩
 
@@ -293,12 +323,6 @@ theorem setPX_wrongtype (s : MState) (now : Int) (k v : Bytes) (ms : Int) (v0 : 
   exact ⟨rfl, h2⟩
 
 /-! ### SETNX / SETXX -/
-
-theorem writeKey_none_flag (s : MState) (now : Int) (k : Bytes) :
-    (writeKey s now k none).2 = (live s now k).isSome := by
-  cases hl : live s now k with
-  | none => rw [(writeKey_absent s now k none hl).1 rfl]; rfl
-  | some v => rw [(writeKey_live s now k none v hl).1]; rfl
 
 theorem setNX_absent (s : MState) (now : Int) (k v : Bytes) (keep : Bool) (hl : live s now k = none) :
     (Api.setNX s now k v keep).2 = .bool true ∧ Hot (Api.setNX s now k v keep).1 k (.str v) now ∧
@@ -1407,14 +1431,19 @@ theorem setOpt_sorted (s : MState) (now : Int) (k : Bytes) (v : DsStr.S) (keep :
 
 theorem getSet_sorted (s : MState) (now : Int) (k : Bytes) (v : Bytes) (hs : IndexSorted s) :
     IndexSorted (Api.getSet s now k v).1 := by
-  have h1 := writeKey_sorted s now k (some (.str [])) hs
+  have h1 := writeKey_sorted s now k none hs
   unfold Api.getSet
-  generalize writeKey s now k (some (.str [])) = w at *
+  generalize writeKey s now k none = w at *
   obtain ⟨s1, b⟩ := w
   simp only at h1 ⊢
-  cases asStr s1 k with
-  | none => exact h1
-  | some o => exact emit_sorted _ _ (signal_sorted _ _ (setExp_sorted _ _ _ (setVal_sorted _ _ _ h1)))
+  cases b with
+  | false =>
+    exact emit_sorted _ _ (signal_sorted _ _ (setExp_sorted _ _ _ (setVal_sorted _ _ _ (newKeyWith_sorted _ _ _ _ h1))))
+  | true =>
+    simp only [Bool.not_true, Bool.false_eq_true, if_false]
+    cases asStr s1 k with
+    | none => exact h1
+    | some o => exact emit_sorted _ _ (signal_sorted _ _ (setExp_sorted _ _ _ (setVal_sorted _ _ _ h1)))
 
 theorem setEX_sorted (s : MState) (now : Int) (k : Bytes) (v : Bytes) (sec : Int) (hs : IndexSorted s) :
     IndexSorted (Api.setEX s now k v sec).1 := by
